@@ -119,6 +119,12 @@ def gen(rng, tier):
             if any(o.startswith("X") and (i == 0 or not seq[i - 1].startswith("A")) for i, o in enumerate(seq)):
                 continue      # X reads the buffer as a C string: only right after an append
             out.append(("pb %d %s" % (1 << 26, ";".join(seq)), {"kind": "small-scope"}))
+    # fills of every length 0..200 with the bytes a fast path would special-case (blank, NUL, '0', 0xff), at offset 0, at the
+    # end of short contents, and one before the capacity
+    for c in (32, 0, 48, 255, 9):
+        for ln in range(0, 201):
+            pre, off = [("", -1), ("A6162;", -1), ("A" + "63" * 31 + ";", 30)][ln % 3]
+            out.append(("pb %d %sS%d,%d,%d;A7a" % (1 << 26, pre, off, c, ln), {"kind": "fill-sweep"}))
     # a buffer grown beyond 1 MiB, then reset / empty appends / reset: nothing the buffer does later may depend on how
     # big it once was (memset builds the big contents; the observation prints them once)
     for seq in (["S0,65,1200000", "R", "R", "A41"], ["S0,65,1100000", "R", "A-", "R", "A4142"], ["S0,66,2200000", "R", "A43", "R", "R", "S-1,0,3"],
